@@ -146,7 +146,9 @@ def run_cases(ctx, cases, kind):
     lines = ['fgen %d %d %s %s' % (c['info'], c['coe'], '-' if c['flt'] is None else c['flt'], c['stream'].hex() or '-')
              for c in cases]
     mouts = run_model_parallel(lines)
+    results = []
     for c, line, mo in zip(cases, lines, mouts):
+        results.append((c, mo))
         fexpr = None if c['flt'] is None else '${%%data_category} == %d' % c['flt']
         pieces, err = S.impl_run(c['stream'], c['info'], c['coe'], fexpr, seconds=60)
         io_ = S.fmt_outcome(pieces, err)
@@ -177,6 +179,37 @@ def run_cases(ctx, cases, kind):
                            'expected_n': len(c['expect'][0]), 'expected_end': c['expect'][1]},
                           'end-to-end prediction fails on the implementation: %d pieces, end %r expected; got %s'
                           % (len(c['expect'][0]), c['expect'][1], io_[:80]))
+    return results
+
+
+def cross_check(ctx, results, limit, tag):
+    """Extraction + driver cross-check: the OCaml fgen (with the hand-written stub decoder of drv_frame.ml) against
+    vm_compute of StreamFrame.frame_generate with FramePrefix.stub_dd (the decoder of the *_stub theorems)."""
+    from props import C11 as S
+    items = []
+    for c, mo in results:
+        if len(items) >= limit:
+            break
+        if len(c['stream']) > 220 or c['n_msgs'] == 0 or not mo.startswith('n='):
+            continue
+        if c['flt'] is None:
+            filt, fl = '(fun _ => Err EOther)', 'false'
+        else:
+            filt = '(fun mi => match mi_meta mi with dc :: _ => Ok (N.eqb dc %d) | [] => Err EAttr end)' % c['flt']
+            fl = 'true'
+        term = 'frame_generate stub_dd (fun _ => []) (fun _ => Err EOther) %s %s %s %s %s' % (
+            filt, str(bool(c['info'])).lower(), str(bool(c['coe'])).lower(), fl, S.coq_bytes(c['stream']))
+        head, _, ending = mo.partition(' end ')
+        _, _, plist = head.partition(' ')
+        pieces = [] if plist == '_' else [bytes.fromhex('' if h == '-' else h) for h in plist.split(',')]
+        exp_end = 'None' if ending == 'none' else 'Some %s' % S.COQ_ERR[int(ending.split()[1])]
+        items.append((term, '([%s], %s)' % (';'.join(S.coq_bytes(p) if p else '[]' for p in pieces), exp_end)))
+    n, err = lib.vm_cross_check('C11e2e' + tag, 'From PBK Require Import Base Bits Frame FramePrefix Stream StreamFrame.', items)
+    ctx.extra['e2e_extraction_cross_check_vm_compute' + tag] = n
+    if err:
+        ctx.violation({'kind': 'extraction-cross-check', 'error': err, 'no_failing_input': True,
+                       'broken': 'OCaml fgen (extracted StreamFrame.frame_generate + the driver stub decoder) disagrees with '
+                                 'vm_compute of frame_generate stub_dd'})
 
 
 def run(ctx, damaged):
@@ -185,7 +218,8 @@ def run(ctx, damaged):
     from props import C11 as S
     with S.quiet():
         cases = make_cases(rng, ctx.n(80, 600), damaged)
-    run_cases(ctx, cases, 'C12-e2e-stream' if damaged else 'stream-e2e')
+    results = run_cases(ctx, cases, 'C12-e2e-stream' if damaged else 'stream-e2e')
+    cross_check(ctx, results, ctx.n(6, 30), '_damaged' if damaged else '')
     need = ['e2e:mode:full', 'e2e:mode:info', 'e2e:predicate-evaluated', '+filter'] + (['e2e:damage:stop', 'e2e:damage:len4dec'] if damaged else [])
     for k in need:
         if not any(x.startswith('e2e:') and k in x and v > 0 for x, v in ctx.dist.items()):
